@@ -266,6 +266,12 @@ func (x *Exec) nilCompare(op token.Token, v Term, t types.Type, e ast.Expr, env 
 		}
 	case *types.Map:
 		name := "isnil_" + sanitize(string(v.Sort))
+		if !x.W.constSeen[name] && x.W.IsMap(v.Sort) {
+			x.W.DeclareFun(name, []Sort{v.Sort}, SBool)
+			// a nil map is empty
+			d := x.W.datas[v.Sort]
+			x.W.Facts = append(x.W.Facts, fmt.Sprintf("(forall ((m %s)) (! (=> (%s m) (= (%s m) 0)) :pattern ((%s m))))", v.Sort, name, d.Fields[2].Sel, name))
+		}
 		x.W.DeclareFun(name, []Sort{v.Sort}, SBool)
 		isNil = T("("+name+" "+v.S+")", SBool)
 	case *types.Pointer:
